@@ -11,6 +11,7 @@ use cameleon_genapi::builder::GenApiBuilder;
 use cameleon_genapi::prelude::*;
 use cameleon_genapi::store::{CacheSink, DefaultCacheStore, DefaultNodeStore, DefaultValueStore};
 use cameleon_genapi::{Device, GenApiError, GenApiResult, NodeId, NodeStore, ValueCtxt};
+use std::collections::HashMap;
 
 // ───────────────────────────── abstract description ─────────────────────────────
 
@@ -2146,6 +2147,103 @@ pub fn sweep(g: &Graph) -> Vec<Op> {
 
 // ───────────────────────────── C03 oracles ─────────────────────────────
 
+/// The formula environment of a swiss knife / converter, built from the rule (not from the
+/// code): `first` (TO of a converter read), then the variables in document order — each bound
+/// to what its accessor names, read from the referenced node through the public interface —
+/// then the constants, then the expressions; a later binding of a name replaces an earlier
+/// one.  `None` when a referenced value cannot be obtained (then the node has no value either).
+fn oracle_formula_env(g: &Graph, im: &mut Impl, fm: &Fm, int: bool, first: Option<(&str, usize)>) -> Option<HashMap<String, cameleon_genapi::formula::Expr>> {
+    use cameleon_genapi::formula::{parse, Expr};
+    fn plain(g: &Graph, im: &mut Impl, v: usize) -> Option<Expr> {
+        if g.is_int(v) {
+            match im.probe(&Op::IntValue(v)) {
+                Ans::Int(i) => Some(Expr::from(i)),
+                _ => None,
+            }
+        } else if g.is_float(v) {
+            match im.probe(&Op::FloatValue(v)) {
+                Ans::Float(f) => Some(Expr::from(f)),
+                _ => None,
+            }
+        } else if g.is_bool(v) {
+            match im.probe(&Op::BoolValue(v)) {
+                Ans::Bool(b) => Some(Expr::from(if b { 1i64 } else { 0i64 })),
+                _ => None,
+            }
+        } else if g.is_enum(v) {
+            // the current entry's NumericValue (its Value when none is declared)
+            match im.probe(&Op::EnumCurrentEntry(v)) {
+                Ans::Node(e) => match g.kind(e) {
+                    Some(Kind::EnumEntry { value, numeric, .. }) => Some(Expr::from(numeric.unwrap_or(*value as f64))),
+                    _ => None,
+                },
+                _ => None,
+            }
+        } else {
+            None
+        }
+    }
+    let mut env: HashMap<String, Expr> = HashMap::new();
+    if let Some((name, v)) = first {
+        env.insert(name.to_string(), plain(g, im, v)?);
+    }
+    for (name, v) in &fm.vars {
+        let parts: Vec<&str> = name.splitn(3, '.').collect();
+        let e = match parts.as_slice() {
+            [_] | [_, "Value"] => plain(g, im, *v)?,
+            [_, acc @ ("Min" | "Max" | "Inc")] => {
+                let op = match (*acc, g.is_int(*v), g.is_float(*v)) {
+                    ("Min", true, _) => Op::IntMin(*v),
+                    ("Max", true, _) => Op::IntMax(*v),
+                    ("Inc", true, _) => Op::IntInc(*v),
+                    ("Min", _, true) => Op::FloatMin(*v),
+                    ("Max", _, true) => Op::FloatMax(*v),
+                    ("Inc", _, true) => Op::FloatInc(*v),
+                    _ => return None,
+                };
+                match im.probe(&op) {
+                    Ans::Int(i) => Expr::from(i),
+                    Ans::Float(f) => Expr::from(f),
+                    _ => return None,
+                }
+            }
+            [_, "Enum", sym] => {
+                if !g.is_enum(*v) {
+                    return None;
+                }
+                let ev = g.entry_values(*v);
+                Expr::from(ev.iter().find(|e| e.2 == *sym)?.1)
+            }
+            _ => return None,
+        };
+        env.insert(name.clone(), e);
+    }
+    for (name, c) in &fm.consts {
+        env.insert(
+            name.clone(),
+            // the constants of a float swiss knife / converter are floats, those of an integer one integers
+            match c {
+                Lit::I(i) if int => Expr::from(*i),
+                Lit::I(i) => Expr::from(*i as f64),
+                Lit::F(f) => Expr::from(*f),
+            },
+        );
+    }
+    for (name, txt) in &fm.exprs {
+        let e = std::panic::catch_unwind(|| parse(txt)).ok()?;
+        env.insert(name.clone(), e);
+    }
+    Some(env)
+}
+
+/// evaluates `formula` in `env` with the implementation's own evaluator (the evaluator is C05's
+/// subject; what is checked here is which environment the node hands to it)
+fn oracle_formula_eval(formula: &str, env: &HashMap<String, cameleon_genapi::formula::Expr>, int: bool) -> Option<Ans> {
+    use cameleon_genapi::formula::parse;
+    let r = std::panic::catch_unwind(std::panic::AssertUnwindSafe(|| parse(formula).eval(env))).ok()?.ok()?;
+    Some(if int { Ans::Int(r.as_integer()) } else { Ans::Float(r.as_float()) })
+}
+
 /// Independent checks of the dataflow rules on the implementation's answers.  Everything is
 /// computed from the abstract description and from the *values of the referenced nodes*
 /// (obtained through the public value interface with recording off), never from the node
@@ -2204,6 +2302,30 @@ pub fn c03_oracles(g: &Graph, im: &mut Impl, op: &Op, ans: &Ans, log_before: usi
                 let only_last_failed = got.iter().take(got.len().saturating_sub(1)).all(|x| x.1);
                 if !prefix_ok || !only_last_failed || okc == exp_addrs.len() && !exp_addrs.is_empty() && expect.iter().all(|e| e.is_some()) {
                     return Some(("fanout".into(), format!("failed write must stop at the first failing target: expected a prefix of {exp_addrs:?}, device saw {got:?}")));
+                }
+            }
+            None
+        }
+        // ── swiss knives and converters (read): the formula sees variables, then constants, then
+        //    expressions, later bindings shadowing earlier ones; a converter read binds TO first ──
+        (Op::IntValue(_) | Op::FloatValue(_), Kind::SwissKnife { fm, formula, int, .. }) if matches!(ans, Ans::Int(_) | Ans::Float(_)) => {
+            if let Some(env) = oracle_formula_env(g, im, fm, *int, None) {
+                if let Some(e) = oracle_formula_eval(formula, &env, *int) {
+                    rep.count("oracle:swissknife-read");
+                    if e.show() != ans.show() {
+                        return Some(("formula-env".into(), format!("swiss knife value {} but the formula evaluates to {} in the environment variables < constants < expressions (later shadows earlier)", ans.show(), e.show())));
+                    }
+                }
+            }
+            None
+        }
+        (Op::IntValue(_) | Op::FloatValue(_), Kind::Converter { fm, from, pvalue, int, .. }) if matches!(ans, Ans::Int(_) | Ans::Float(_)) => {
+            if let Some(env) = oracle_formula_env(g, im, fm, *int, Some(("TO", *pvalue))) {
+                if let Some(e) = oracle_formula_eval(from, &env, *int) {
+                    rep.count("oracle:converter-read");
+                    if e.show() != ans.show() {
+                        return Some(("formula-env".into(), format!("converter value {} but FormulaFrom evaluates to {} in the environment TO < variables < constants < expressions", ans.show(), e.show())));
+                    }
                 }
             }
             None
@@ -2705,6 +2827,7 @@ pub fn run_case(mode: &Mode, rep: &mut Report, seed: u64, case: u64, max_ops: u6
     let acc = Access { g: &g };
     // C18: the same graph and history under the default cache (impl vs impl, access queries)
     let mut imc = if mode.spec { Impl::<DefaultCacheStore>::build_cached(&g).ok() } else { None };
+    let mut twin_diverged = false;
     if mode.spec && imc.is_none() {
         rep.count("cache-twin:unbuildable");
     }
@@ -2765,15 +2888,16 @@ pub fn run_case(mode: &Mode, rep: &mut Report, seed: u64, case: u64, max_ops: u6
                 rep.count("cache-twin:access-compared");
                 if ans_c != ans {
                     rep.violation(
-                        json!({"oracle": "cache-access", "kind": tag}),
+                        json!({"oracle": "cache-access", "kind": tag, "after_other_divergence": twin_diverged}),
                         &format!("`{}` on {tag}: {} without cache, {} under the default cache (every register declares the port as pInvalidator)", op.line(), ans.show(), ans_c.show()),
                         replay.clone(),
                     );
                 }
-            } else if ans_c.show() != ans.show() || c.dev.mem != im.dev.mem {
-                // a difference outside access queries is C04's subject: stop comparing this case
+            } else if !twin_diverged && (ans_c.show() != ans.show() || c.dev.mem != im.dev.mem) {
+                // a difference outside access queries is C04's subject; it is counted, and the access
+                // queries of the rest of the history are still compared
                 rep.count("cache-twin:diverged-on-other-call(C04)");
-                imc = None;
+                twin_diverged = true;
             }
         }
         // distribution of access answers: kind x restriction x answer
